@@ -8,7 +8,7 @@
 (* decode yields the same" has to stay true for a result one still holds.) *)
 (***************************************************************************)
 EXTENDS Judge, Sequences, Integers, TLC
-ChainProp(kind) == CASE kind = "mapping" -> "C11" [] kind = "textdec" -> "C13" [] kind = "ser" -> "C01" [] OTHER -> "C12"
+ChainProp(kind) == CASE kind = "mapping" -> "C11" [] kind = "textdec" -> "C13" [] kind = "ser" -> "C01" [] kind = "build" -> "C07" [] OTHER -> "C12"
 JChain(e) ==
   LET p == ChainProp(e.kind)
       cls == e.kind \o "/" \o (IF "cls" \in DOMAIN e THEN e.cls ELSE "-") IN
